@@ -140,6 +140,15 @@ pub fn expect_built(sc: &Scenario, rep: &mut crate::report::RunReport, build: &R
             if sc.builder_order >= 6 {
                 rep.probe("built_with_repeated_setter_calls");
             }
+            if sc.model.nparams >= 65 {
+                rep.probe("giant_65_or_more_parameters");
+            }
+            if sc.s() >= 64 {
+                rep.probe("giant_64_or_more_right_hand_sides");
+            }
+            if sc.n() * sc.model.m() >= 65536 {
+                rep.probe("giant_65536_or_more_basis_matrix_elements");
+            }
             if sc.builder_order % 6 != 0 {
                 rep.probe("built_with_permuted_setter_calls");
             }
@@ -202,5 +211,72 @@ pub fn make_concurrent(sc: &mut Scenario, rng: &mut Rng) {
     for _ in 0..cnt {
         let pos = rng.usize_in(0, sc.ops.len());
         sc.ops.insert(pos, Op::ConcurrentQueries(2 + rng.below(3) as u8));
+    }
+}
+
+/// The rule for `ConcurrentQueries` (C10, C11). `log` is the model-seam log of the execution.
+/// Fault-free operation: every simultaneous caller sees bitwise what the lone caller saw.
+/// With model *failures* during the operation (transient, burst or persistent): residuals,
+/// coefficients and parameters are still those the lone caller saw (queries never change
+/// them); every Jacobian that *is* returned equals every other one; and a failing model call
+/// can cost at most the one caller it belongs to its Jacobian — so the number of callers left
+/// without a Jacobian is at most the number of failed calls in the callers' phase (none if the
+/// lone caller already had none: then nobody calls the model). Faults that make a call succeed
+/// with odd values gate the comparison (counted).
+pub fn concurrent_rule<T: crate::sc::Sc>(
+    sc: &Scenario,
+    rep: &mut crate::report::RunReport,
+    st: &crate::run::StepObs<T>,
+    log: &[crate::ctl::Event],
+    class: &str,
+    site: &str,
+) {
+    let crate::run::Extra::Concurrent { reference, observed, overlapped, ref_ev_to } = &st.extra else { return };
+    let from = st.ev_from.min(log.len());
+    let to = st.ev_to.min(log.len());
+    let mid = (*ref_ev_to).clamp(from, to);
+    let faults_in_op: Vec<&FaultAction> = log[from..to].iter().filter_map(|e| e.fault.as_ref()).collect();
+    if faults_in_op.iter().any(|a| !is_failure(a)) {
+        rep.probe("concurrent_queries_gated_by_value_fault");
+        return;
+    }
+    rep.probe(if *overlapped { "concurrent_queries_overlapped" } else { "concurrent_queries_serialised" });
+    let failed_in_callers = log[mid..to].iter().filter(|e| e.fault.is_some()).count();
+    if !faults_in_op.is_empty() {
+        rep.probe("concurrent_queries_with_failing_calls");
+    }
+    let mut without_jac = 0usize;
+    let mut first_some: Option<&crate::run::JacObs> = if reference.1.bits.is_some() { Some(&reference.1) } else { None };
+    for (i, o) in observed.iter().enumerate() {
+        match o {
+            Ok((s, j)) => {
+                if s != &reference.0 {
+                    rep.violate(sc, class, site, format!("op {}: caller {i} of {} simultaneous callers saw different residuals/coefficients/parameters than a caller querying alone", st.op, observed.len()));
+                }
+                if j.bits.is_none() {
+                    without_jac += 1;
+                } else {
+                    match first_some {
+                        None => first_some = Some(j),
+                        Some(f) => {
+                            if f != j {
+                                rep.violate(sc, class, site, format!("op {}: caller {i} of {} simultaneous callers saw a different Jacobian than {}", st.op, observed.len(), if reference.1.bits.is_some() { "a caller querying alone" } else { "another simultaneous caller" }));
+                            }
+                        }
+                    }
+                }
+            }
+            Err(p) => rep.violate(sc, "PANIC", &format!("ConcurrentQueries@{}", crate::report::panic_site(p)), p.clone()),
+        }
+    }
+    // the lone caller had no Jacobian without any failing call: the state is absent, every
+    // caller must find it absent too (and nobody calls the model)
+    let ref_failed = log[from..mid].iter().any(|e| e.fault.is_some());
+    if reference.1.bits.is_none() && !ref_failed {
+        if without_jac != observed.iter().filter(|o| o.is_ok()).count() {
+            rep.violate(sc, class, site, format!("op {}: a lone caller got no Jacobian, yet a simultaneous caller got one", st.op));
+        }
+    } else if without_jac > failed_in_callers {
+        rep.violate(sc, class, site, format!("op {}: {without_jac} of {} simultaneous callers got no Jacobian although only {failed_in_callers} model call(s) failed while they ran", st.op, observed.len()));
     }
 }
